@@ -28,7 +28,7 @@ ASSUMPTIONS = [
     "files >= 1 MiB live on tmpfs; reads return full chunks (short reads are not simulated)",
 ]
 BUDGET = {"quick": (900, 4), "thorough": (144000, 16)}
-REQUIRED = ["multi_chunk", "multi_format", "c4_padded", "len0", "len_2^20", "len_2^20+1", "len_2^20-1", "inplace_edit"]
+REQUIRED = ["multi_chunk", "multi_format", "c4_padded", "len0", "len_2^20", "len_2^20+1", "len_2^20-1", "inplace_edit", "leading_zero_digest"]
 
 MIB = 1 << 20
 CLI = refhash.CLI_FORMATS
@@ -100,10 +100,44 @@ def enumerated(tier):
         if v not in seen:
             seen.add(v)
             yield {"kind": "c4", "value": "%x" % v}
+    for f, d in sorted(leading_zero_inputs().items()):
+        for tag, i in sorted(d.items()):
+            if i is not None:
+                text = "mhl-%d" % i
+                yield {"kind": "bytes", "pat": text.encode().hex(), "len": len(text), "formats": [f] + [x for x in ALLF if x != f][:2], "cuts": [2], "name": "f.bin", "leading": f + ":" + tag}
     for length in (0, 1, MIB - 1, MIB, MIB + 1, 2 * MIB, 2 * MIB + 1, 3 * MIB - 1):
         yield {"kind": "bytes", "pat": "00ff17a5", "len": length, "formats": list(ALLF), "cuts": [length // 2], "name": "f.bin"}
         for f in ALLF:
             yield {"kind": "bytes", "pat": "6d686c", "len": length, "formats": [f], "cuts": [], "name": "f.bin"}
+
+
+_LEADING = {}
+
+
+def leading_zero_inputs():
+    """per hex format: short inputs whose digest starts with '00', with '0' + non-zero, and (c4) with '11' / '1'"""
+    if _LEADING:
+        return _LEADING
+    want = {f: {"00": None, "0x": None} for f in ALLF if f != "c4"}
+    want["c4"] = {"c411": None, "c41x": None}
+    i = 0
+    while any(v is None for d in want.values() for v in d.values()) and i < 200000:
+        data = b"mhl-%d" % i
+        for f, d in want.items():
+            dig = refhash.digest(f, data)
+            if f == "c4":
+                if d["c411"] is None and dig.startswith("c411"):
+                    d["c411"] = i
+                elif d["c41x"] is None and dig.startswith("c41") and dig[3] != "1":
+                    d["c41x"] = i
+            else:
+                if d["00"] is None and dig.startswith("00"):
+                    d["00"] = i
+                elif d["0x"] is None and dig[0] == "0" and dig[1] != "0":
+                    d["0x"] = i
+        i += 1
+    _LEADING.update(want)
+    return _LEADING
 
 
 class _Scripted:
@@ -155,6 +189,11 @@ def run_case(scn, ctx):
         if n == val:
             ctx.event(tag)
     ctx.mark_nontrivial(n >= MIB or len(distinct) >= 2)
+    if scn.get("leading"):
+        ctx.event("leading_zero_digest")
+    for f in distinct:
+        if ref[f].startswith("00") or ref[f].startswith("c411"):
+            ctx.event("digest_leading_zero_byte")
 
     with World("c01") as w:
         rel = "R/" + scn["name"]
@@ -193,12 +232,19 @@ def run_case(scn, ctx):
                 lambda: "stdout %r, expected %r" % (res.stdout, line),
                 res,
             )
+            # two bystander files, one sorting before and one after the file under test
+            others = {"R/!first.txt": b"bystander one", "R/~last.txt": b"bystander two, different"}
+            for op, od in others.items():
+                w.put(op, od)
             res = w.create("R", formats=cli)
-            require(res.exit_code == 0, "create_exit", "create on a fresh one-file tree: " + res.brief(), res)
+            require(res.exit_code == 0, "create_exit", "create on a fresh tree: " + res.brief(), res)
             hist = w.read_history("R")
             require(len(hist) == 1, "create_exit", "expected one manifest, found %d" % len(hist), res)
-            recs = [x for x in hist[0][2]["records"] if x["kind"] == "file"]
-            require(len(recs) == 1 and recs[0]["path"] == scn["name"], "create_record", "records: %r" % recs, res)
+            recs = [x for x in hist[0][2]["records"] if x["kind"] == "file" and x["path"] == scn["name"]]
+            require(len(recs) == 1, "create_record", "records: %r" % recs, res)
+            for op, od in others.items():
+                orec = [x for x in hist[0][2]["records"] if x["kind"] == "file" and x["path"] == op[2:]]
+                require(len(orec) == 1 and all(e["digest"] == refhash.digest(e["fmt"], od) for e in orec[0]["entries"]), "create_digest", "bystander %s recorded wrongly: %r" % (op, orec), res)
             got = {e["fmt"]: e["digest"] for e in recs[0]["entries"]}
             want = {f: ref[f] for f in set(cli)}
             require(got == want, "create_digest", lambda: "manifest %r != reference %r" % (got, want), res)
@@ -226,4 +272,20 @@ def run_case(scn, ctx):
                 res = w.verify("R")
                 require(res.exit_code == 11, "verify_detects", "bit flip at %d of %d (size and mtime unchanged): %s" % (pos, n, res.brief()), res)
                 ctx.event("inplace_edit")
+                # the digests printed for the altered file are the recorded one and the standard digest of the new bytes
+                import re as _re
+
+                lines = [l for l in res.output.splitlines() if l.startswith("ERROR: hash mismatch")]
+                require(len(lines) == 1, "verify_prints", "expected one mismatch line, got %r" % lines, res)
+                m = _re.search(r" old (\w+): (\S+), new (\w+): (\S+)$", lines[0])
+                require(m is not None, "verify_prints", "unparsable mismatch line %r" % lines[0], res)
+                pf = m.group(1)
+                require(m.group(3) == pf and m.group(2) == ref[pf] and m.group(4) == refhash.digest(pf, bytes(mutated)), "verify_prints",
+                        "verify prints old %s / new %s for %s; recorded %s, the altered bytes hash to %s" % (m.group(2), m.group(4), pf, ref.get(pf), refhash.digest(pf, bytes(mutated))), res)
+                res = w.create("R", formats=cli)
+                require(res.exit_code == 11, "create_detects", "create after the bit flip: " + res.brief(), res)
+                for l in [l for l in res.output.splitlines() if l.startswith("ERROR: hash mismatch")]:
+                    m = _re.search(r"  (\w+) \(old\): (\S+), (\w+) \(new\): (\S+)$", l)
+                    require(m is not None and m.group(2) == ref[m.group(1)] and m.group(4) == refhash.digest(m.group(1), bytes(mutated)), "create_prints",
+                            "create prints %r; recorded %s, the altered bytes hash to %s" % (l[-120:], ref.get(m.group(1)) if m else None, refhash.digest(m.group(1), bytes(mutated)) if m else None), res)
         return w.trace
